@@ -27,6 +27,13 @@
 (*                        bind                                             *)
 (*   NilPacketSock FALSE: multiPacketListener keeps m.pc after closing it  *)
 (*                        (pinned): a re-acquired object is dead           *)
+(*   CloseWaits    FALSE: Close of a handle returns while accept/read      *)
+(*                        calls of that handle are still in flight; one of *)
+(*                        them may then take an item that arrives later    *)
+(*                        (both select branches ready).  TRUE (repaired):  *)
+(*                        Close waits for the calls in flight (label C1w), *)
+(*                        and ReadFrom looks at the close flag under the   *)
+(*                        handle lock                                      *)
 (***************************************************************************)
 EXTENDS Integers, Sequences, FiniteSets, TLC
 
@@ -38,7 +45,7 @@ CONSTANTS ForeignKeys,    \* keys whose address a foreign socket holds: binding 
           NItems,         \* connections / datagrams the environment may send
           NH,             \* handle slots
           MaxObj, MaxSock,
-          CbUnderLock, Capture, GiveUp, PreCheckClosed, NilPacketSock
+          CbUnderLock, Capture, GiveUp, PreCheckClosed, NilPacketSock, CloseWaits
 
 VARIABLES foreign,                  \* keys whose address a foreign socket holds NOW (initially ForeignKeys; a "free" op releases one)
           script,                   \* chosen in Init
@@ -50,11 +57,12 @@ VARIABLES foreign,                  \* keys whose address a foreign socket holds
           hd,                       \* handles by slot
           gor,                      \* per-bind goroutine
           fate, nitems,             \* items (connections / datagrams)
+          sentAfter,                \* item -> handles whose Close had returned when the item was sent
           bad,                      \* set of property-violation tags observed
           tr                        \* schedule history <<proc, label>> (hidden by VIEW)
 
-vars == <<foreign, script, pc, ip, tobj, lch, tafter, mgrLock, mgrMap, obj, nobj, sock, nsock, chClosed, nch, hd, gor, fate, nitems, bad, tr>>
-View == <<foreign, script, pc, ip, tobj, lch, tafter, mgrLock, mgrMap, obj, nobj, sock, nsock, chClosed, nch, hd, gor, fate, nitems, bad>>
+vars == <<foreign, script, pc, ip, tobj, lch, tafter, mgrLock, mgrMap, obj, nobj, sock, nsock, chClosed, nch, hd, gor, fate, nitems, sentAfter, bad, tr>>
+View == <<foreign, script, pc, ip, tobj, lch, tafter, mgrLock, mgrMap, obj, nobj, sock, nsock, chClosed, nch, hd, gor, fate, nitems, sentAfter, bad>>
 
 G(g) == 100 + g        \* lock-holder id of goroutine g
 Objs == 1..MaxObj
@@ -77,6 +85,7 @@ Init == /\ script \in ScriptChoices /\ foreign = ForeignKeys
         /\ hd = [h \in HS |-> NoHd]
         /\ gor = [s \in Socks |-> NoGor]
         /\ fate = [i \in Items |-> [st |-> "new", at |-> 0]] /\ nitems = 0
+        /\ sentAfter = [i \in Items |-> {}]
         /\ bad = {}
         /\ tr = <<>>
 
@@ -103,7 +112,7 @@ L1(t) == /\ pc[t] = "idle" /\ HasOp(t) /\ Op(t).a = "listen"
          /\ mgrLock' = t
          /\ pc' = [pc EXCEPT ![t] = "L2"]
          /\ Step(t, "L1")
-         /\ UNCHANGED <<foreign, script, ip, lch, tafter, sock, nsock, chClosed, nch, hd, gor, fate, nitems, bad>>
+         /\ UNCHANGED <<foreign, script, ip, lch, tafter, sock, nsock, chClosed, nch, hd, gor, fate, nitems, sentAfter, bad>>
 
 BoundElsewhere(k) == \E s \in Socks : sock[s].open /\ sock[s].key = k
 
@@ -139,7 +148,7 @@ L2(t) == /\ pc[t] = "L2"
          /\ mgrLock' = 0
          /\ Finish(t)
          /\ Step(t, "L2")
-         /\ UNCHANGED <<foreign, script, tobj, lch, tafter, mgrMap, nobj, chClosed, fate, nitems>>
+         /\ UNCHANGED <<foreign, script, tobj, lch, tafter, mgrMap, nobj, chClosed, fate, nitems, sentAfter>>
 
 (* -------------------------------- close --------------------------------- *)
 \* listeners.go:99-107 / 160-164: handle lock (kept until Close returns), mark closed, close closeCh
@@ -151,9 +160,18 @@ C1(t) == /\ pc[t] = "idle" /\ HasOp(t) /\ Op(t).a = "close"
                THEN \* already closed: returns at once
                     /\ Finish(t) /\ UNCHANGED hd
                ELSE /\ hd' = [hd EXCEPT ![h].lock = t, ![h].chNil = TRUE, ![h].closeCh = TRUE, ![h].onClose = FALSE]
-                    /\ pc' = [pc EXCEPT ![t] = "C2"] /\ UNCHANGED ip
+                    /\ pc' = [pc EXCEPT ![t] = IF CloseWaits THEN "C1w" ELSE "C2"] /\ UNCHANGED ip
          /\ Step(t, "C1")
-         /\ UNCHANGED <<foreign, script, tobj, lch, tafter, mgrLock, mgrMap, obj, nobj, sock, nsock, chClosed, nch, gor, fate, nitems, bad>>
+         /\ UNCHANGED <<foreign, script, tobj, lch, tafter, mgrLock, mgrMap, obj, nobj, sock, nsock, chClosed, nch, gor, fate, nitems, sentAfter, bad>>
+
+\* repaired code: Close waits (handle lock held) until no accept/read call of the handle is in flight; those calls are
+\* woken up by closeCh (A2closed is enabled for them) or complete a delivery that is already under way (A2recv)
+InFlight(h) == \E t2 \in Threads : pc[t2] = "A2" /\ Op(t2).h = h
+C1w(t) == /\ pc[t] = "C1w"
+          /\ ~InFlight(Op(t).h)
+          /\ pc' = [pc EXCEPT ![t] = "C2"]
+          /\ Step(t, "C1w")
+          /\ UNCHANGED <<foreign, script, ip, tobj, lch, tafter, mgrLock, mgrMap, obj, nobj, sock, nsock, chClosed, nch, hd, gor, fate, nitems, sentAfter, bad>>
 
 \* items still queued on a socket that is closed are reset (stream) / dropped (packet) by the kernel
 KillQueue(s, f) == [i \in Items |-> IF \E j \in 1..Len(sock[s].q) : sock[s].q[j] = i
@@ -187,7 +205,7 @@ C2(t) == /\ pc[t] = "C2"
                             /\ hd' = [hd EXCEPT ![h].lock = 0, ![h].st = "closed", ![h].closeDone = TRUE]
                             /\ Finish(t)
          /\ Step(t, "C2")
-         /\ UNCHANGED <<foreign, script, tobj, lch, tafter, mgrLock, mgrMap, nobj, nsock, nch, gor, nitems, bad>>
+         /\ UNCHANGED <<foreign, script, tobj, lch, tafter, mgrLock, mgrMap, nobj, nsock, nch, gor, nitems, sentAfter, bad>>
 
 \* listeners.go:361-365 / 385-389 manager callback: delete the map entry
 C4(t) == /\ pc[t] = "C4"
@@ -202,7 +220,7 @@ C4(t) == /\ pc[t] = "C4"
             /\ hd' = [hd EXCEPT ![h].lock = 0, ![h].st = "closed", ![h].closeDone = TRUE]
          /\ Finish(t)
          /\ Step(t, "C4")
-         /\ UNCHANGED <<foreign, script, tobj, lch, tafter, mgrLock, nobj, sock, nsock, chClosed, nch, gor, fate, nitems, bad>>
+         /\ UNCHANGED <<foreign, script, tobj, lch, tafter, mgrLock, nobj, sock, nsock, chClosed, nch, gor, fate, nitems, sentAfter, bad>>
 
 (* ------------------------- accept / read (API side) ---------------------- *)
 \* listeners.go:83-86 snapshot of acceptCh under the handle lock / start of ReadFrom
@@ -210,27 +228,28 @@ C4(t) == /\ pc[t] = "C4"
 FreeOp(t) == /\ pc[t] = "idle" /\ HasOp(t) /\ Op(t).a = "free"
              /\ foreign' = foreign \ {Op(t).k}
              /\ Finish(t) /\ Step(t, "Free")
-             /\ UNCHANGED <<script, tobj, lch, tafter, mgrLock, mgrMap, obj, nobj, sock, nsock, chClosed, nch, hd, gor, fate, nitems, bad>>
+             /\ UNCHANGED <<script, tobj, lch, tafter, mgrLock, mgrMap, obj, nobj, sock, nsock, chClosed, nch, hd, gor, fate, nitems, sentAfter, bad>>
 
 \* a script step on a handle whose listen failed is skipped by the driver
 SkipFailed(t) == /\ pc[t] = "idle" /\ HasOp(t) /\ Op(t).a = "accept" /\ hd[Op(t).h].st = "failed"
                  /\ Finish(t) /\ Step(t, "Skip")
-                 /\ UNCHANGED <<foreign, script, tobj, lch, tafter, mgrLock, mgrMap, obj, nobj, sock, nsock, chClosed, nch, hd, gor, fate, nitems, bad>>
+                 /\ UNCHANGED <<foreign, script, tobj, lch, tafter, mgrLock, mgrMap, obj, nobj, sock, nsock, chClosed, nch, hd, gor, fate, nitems, sentAfter, bad>>
 
 A1(t) == /\ pc[t] = "idle" /\ HasOp(t) /\ Op(t).a = "accept"
          /\ LET h == Op(t).h IN
             /\ hd[h].st \notin {"none", "failed"}
-            /\ hd[h].kind = "p" \/ hd[h].lock = 0
+            /\ (hd[h].kind = "p" /\ ~CloseWaits) \/ hd[h].lock = 0     \* repaired: ReadFrom takes the handle lock as well
             /\ tafter' = [tafter EXCEPT ![t] = hd[h].closeDone]
             /\ lch' = [lch EXCEPT ![t] = IF hd[h].kind = "s" /\ hd[h].chNil THEN 0 ELSE hd[h].ch]
             /\ IF hd[h].kind = "p" /\ PreCheckClosed /\ hd[h].closeCh
                THEN /\ Finish(t)      \* repaired code: a closed handle refuses before offering a request
                ELSE /\ pc' = [pc EXCEPT ![t] = "A2"] /\ UNCHANGED ip
          /\ Step(t, "A1")
-         /\ UNCHANGED <<foreign, script, tobj, mgrLock, mgrMap, obj, nobj, sock, nsock, chClosed, nch, hd, gor, fate, nitems, bad>>
+         /\ UNCHANGED <<foreign, script, tobj, mgrLock, mgrMap, obj, nobj, sock, nsock, chClosed, nch, hd, gor, fate, nitems, sentAfter, bad>>
 
 Delivered(t, h, i) == /\ fate' = [fate EXCEPT ![i] = [st |-> "delivered", at |-> h]]
-                      /\ bad' = IF tafter[t] THEN bad \cup {"delivered-after-close"} ELSE bad
+                      \* to a call that began after Close had returned, or an item that was sent only after Close had returned
+                      /\ bad' = IF tafter[t] \/ h \in sentAfter[i] THEN bad \cup {"delivered-after-close"} ELSE bad
 
 \* select, branch "receive from the goroutine" (rendezvous: both sides move)
 A2recv(t) == /\ pc[t] = "A2"
@@ -249,7 +268,7 @@ A2recv(t) == /\ pc[t] = "A2"
                                 /\ UNCHANGED fate
              /\ Finish(t)
              /\ Step(t, "A2recv")
-             /\ UNCHANGED <<foreign, script, tobj, lch, tafter, mgrLock, mgrMap, obj, nobj, sock, nsock, chClosed, nch, hd, nitems>>
+             /\ UNCHANGED <<foreign, script, tobj, lch, tafter, mgrLock, mgrMap, obj, nobj, sock, nsock, chClosed, nch, hd, nitems, sentAfter>>
 
 \* select, branches "acceptCh closed" / "closeCh closed": the call fails with net.ErrClosed
 A2closed(t) == /\ pc[t] = "A2"
@@ -259,7 +278,7 @@ A2closed(t) == /\ pc[t] = "A2"
                   /\ bad' = IF hd[h].closeCh THEN bad ELSE bad \cup {"spurious-closed"}
                /\ Finish(t)
                /\ Step(t, "A2closed")
-               /\ UNCHANGED <<foreign, script, tobj, lch, tafter, mgrLock, mgrMap, obj, nobj, sock, nsock, chClosed, nch, hd, gor, fate, nitems>>
+               /\ UNCHANGED <<foreign, script, tobj, lch, tafter, mgrLock, mgrMap, obj, nobj, sock, nsock, chClosed, nch, hd, gor, fate, nitems, sentAfter>>
 
 (* ----------------------------- goroutines ------------------------------- *)
 \* stream, listeners.go:216-223: read m.ln under the object lock
@@ -268,7 +287,7 @@ Gtop(g) == /\ gor[g].pc = "top"
               /\ obj[o].lock = 0
               /\ gor' = [gor EXCEPT ![g].pc = IF obj[o].sock = 0 THEN "done" ELSE "accept", ![g].lnl = obj[o].sock]
            /\ Step(G(g), "Gtop")
-           /\ UNCHANGED <<foreign, script, pc, ip, tobj, lch, tafter, mgrLock, mgrMap, obj, nobj, sock, nsock, chClosed, nch, hd, fate, nitems, bad>>
+           /\ UNCHANGED <<foreign, script, pc, ip, tobj, lch, tafter, mgrLock, mgrMap, obj, nobj, sock, nsock, chClosed, nch, hd, fate, nitems, sentAfter, bad>>
 
 \* stream, listeners.go:224-229: AcceptStream returns a connection, or ErrClosed -> close(m.acceptCh)
 Gaccept(g) == /\ gor[g].pc = "accept"
@@ -288,7 +307,7 @@ Gaccept(g) == /\ gor[g].pc = "accept"
                          /\ bad' = IF c \in chClosed THEN bad \cup {"panic-close-of-closed-channel"} ELSE bad
                     /\ UNCHANGED <<sock, fate>>
               /\ Step(G(g), "Gaccept")
-              /\ UNCHANGED <<foreign, script, pc, ip, tobj, lch, tafter, mgrLock, mgrMap, obj, nobj, nsock, nch, hd, nitems>>
+              /\ UNCHANGED <<foreign, script, pc, ip, tobj, lch, tafter, mgrLock, mgrMap, obj, nobj, nsock, nch, hd, nitems, sentAfter>>
 
 \* repaired code only: the goroutine gives up when everybody has gone and closes the connection it holds
 Ggiveup(g) == /\ GiveUp
@@ -297,7 +316,7 @@ Ggiveup(g) == /\ GiveUp
               /\ fate' = [fate EXCEPT ![gor[g].held] = [st |-> "srvclosed", at |-> 0]]
               /\ chClosed' = chClosed \cup {gor[g].sch}
               /\ Step(G(g), "Ggiveup")
-              /\ UNCHANGED <<foreign, script, pc, ip, tobj, lch, tafter, mgrLock, mgrMap, obj, nobj, sock, nsock, nch, hd, nitems, bad>>
+              /\ UNCHANGED <<foreign, script, pc, ip, tobj, lch, tafter, mgrLock, mgrMap, obj, nobj, sock, nsock, nch, hd, nitems, sentAfter, bad>>
 
 \* packet, listeners.go:290: m.pc.ReadFrom returns a datagram, or an error once the socket is closed
 Pread(g) == /\ gor[g].pc = "read"
@@ -313,19 +332,20 @@ Pread(g) == /\ gor[g].pc = "read"
                   /\ gor' = [gor EXCEPT ![g].pc = "sel", ![g].held = -1, ![g].sch = c, ![g].sdone = d]
                   /\ UNCHANGED <<sock, fate>>
             /\ Step(G(g), "Pread")
-            /\ UNCHANGED <<foreign, script, pc, ip, tobj, lch, tafter, mgrLock, mgrMap, obj, nobj, nsock, chClosed, nch, hd, nitems, bad>>
+            /\ UNCHANGED <<foreign, script, pc, ip, tobj, lch, tafter, mgrLock, mgrMap, obj, nobj, nsock, chClosed, nch, hd, nitems, sentAfter, bad>>
 
 \* packet, listeners.go:300-301: doneCh closed -> the goroutine exits (a datagram it holds is dropped)
 Pdone(g) == /\ gor[g].pc = "sel" /\ gor[g].sdone \in chClosed
             /\ gor' = [gor EXCEPT ![g].pc = "done", ![g].held = 0]
             /\ fate' = IF gor[g].held > 0 THEN [fate EXCEPT ![gor[g].held] = [st |-> "dropped", at |-> 0]] ELSE fate
             /\ Step(G(g), "Pdone")
-            /\ UNCHANGED <<foreign, script, pc, ip, tobj, lch, tafter, mgrLock, mgrMap, obj, nobj, sock, nsock, chClosed, nch, hd, nitems, bad>>
+            /\ UNCHANGED <<foreign, script, pc, ip, tobj, lch, tafter, mgrLock, mgrMap, obj, nobj, sock, nsock, chClosed, nch, hd, nitems, sentAfter, bad>>
 
 (* ----------------------------- environment ------------------------------ *)
 Connect(k) == /\ nitems < NItems
               /\ \E t \in Threads : \E j \in 1..Len(script[t]) : script[t][j].a = "listen" /\ script[t][j].k = k
               /\ nitems' = nitems + 1
+              /\ sentAfter' = [sentAfter EXCEPT ![nitems + 1] = {h \in HS : hd[h].closeDone}]
               /\ IF \E s \in Socks : sock[s].open /\ sock[s].key = k
                  THEN LET s == CHOOSE x \in Socks : sock[x].open /\ sock[x].key = k IN
                       /\ sock' = [sock EXCEPT ![s].q = Append(sock[s].q, nitems + 1)]
@@ -340,7 +360,7 @@ AllDone == \A t \in Threads : pc[t] = "idle" /\ ~HasOp(t)
 Parked(t) == pc[t] = "A2" /\ ~hd[Op(t).h].closeCh
 Terminal == (\A t \in Threads : (pc[t] = "idle" /\ ~HasOp(t)) \/ Parked(t)) /\ UNCHANGED vars
 
-ThreadStep == \E t \in Threads : FreeOp(t) \/ SkipFailed(t) \/ L1(t) \/ L2(t) \/ C1(t) \/ C2(t) \/ C4(t) \/ A1(t) \/ A2recv(t) \/ A2closed(t)
+ThreadStep == \E t \in Threads : FreeOp(t) \/ SkipFailed(t) \/ L1(t) \/ L2(t) \/ C1(t) \/ C1w(t) \/ C2(t) \/ C4(t) \/ A1(t) \/ A2recv(t) \/ A2closed(t)
 GorStep == \E g \in Socks : Gtop(g) \/ Gaccept(g) \/ Ggiveup(g) \/ Pread(g) \/ Pdone(g)
 EnvStep == \E k \in Keys : Connect(k)
 
